@@ -66,7 +66,7 @@ META = {
  "C15": dict(
   text="Differential random testing of the two filter evaluators on generated expressions (and / implicit and / or / parentheses, bare and quoted keys) and key-to-block assignments: bitmap result contains b <=> per-block evaluation on b's own keys <=> the meaning of the harness' AST; BlockIndex.Skip vs SkipFromKeys; input bitmaps unchanged across repeated and interleaved evaluations; '-' operator rejected; thorough adds coverage-guided native fuzzing of the parser string with the same differential inside the target.",
   design_ref="DESIGN.md section 3, C15",
-  note="Evaluator level in this commit; the end-to-end part (index present/absent/being built through tier1/tier2) comes with the end-to-end world.",
+  note="End to end (TestC15Index): programs with several filtered modules sharing one index module are run in production mode with the index being built by the jobs, with only the index files present, and with a subset of them, each compared with the sequential dev-mode execution, in which every filtered module must have run exactly on the blocks whose keys satisfy its filter. Index files are only read by tier2, so the index-present scenarios are back-filled production ranges.",
   technique="rapid random generation, differential (bitmap vs per-block evaluator) + native go fuzzing"),
  "C16": dict(
   text="Fault-injection random testing end to end: the real work.RemoteWorker talks to the exported Tier2Service.ProcessRange through a fake gRPC client/stream pair; generated fault plans (1..3 transient faults by call number: error before the call, 'service currently overloaded', stream dropped mid-way with the server context cancelled, stream dropped after the job wrote its files) must leave the outputs identical to the sequential execution; a generated deterministic module failure at block k must end the request with an error that tier1 maps to invalid_argument, with only correct blocks < k delivered, nothing after the error and no endless retry.",
